@@ -462,6 +462,19 @@ def run(pid, tables, seed, tier, deep=False):
 def replay(pid, r):
     """re-run one recorded oracle violation on the freshly built binary"""
     out = {}
+    if pid == "C18" and "bits" in r:
+        import fakeatlas, tempfile, shutil
+        fake = fakeatlas.Fake(fakeatlas.Scenario(["h1.example.net:27017"], [fakeatlas.gz(b'{"a":1}\n')]))
+        work = tempfile.mkdtemp(prefix="verif_c18_")
+        try:
+            f, rc, so, se, created = run_cli_combo(r["bits"], fake.url, work)
+        finally:
+            fake.close()
+            shutil.rmtree(work, ignore_errors=True)
+        wd = spec_well_defined(f)
+        out = {"flags": [n for n in FLAG_NAMES if f[n]], "well_defined_by_rule_table": wd, "exit": rc, "files_created": created, "requests": len(fake.log), "stderr": se.decode("utf-8", "replace")[-300:]}
+        out["violation"] = (wd and rc != 0) or (not wd and (rc == 0 or bool(created) or len(fake.log) > 0))
+        return out
     if "input" in r or "input_hex" in r:
         b = unhxb(r["input_hex"]) if "input_hex" in r else r["input"].encode()
         res = go_exec([("r", ["line", r.get("cfg", "-"), hx(b)])])["r"]
@@ -481,3 +494,144 @@ def replay(pid, r):
             if rc == 2 and "panic" in out["cli_stderr"]:
                 out["violation"] = True
     return out
+
+
+# ------------------------------------------------------------------------------------------- C18 (whole program)
+
+FLAG_NAMES = ["file", "stdin", "out", "encrypt", "regexp", "fieldNames", "project", "cluster", "pub", "priv", "start", "end", "env"]
+
+
+def spec_well_defined(f):
+    """rule table written from README 2.1 / the property text (python copy of Spec/CliRules.lean)"""
+    atlas = f["project"] or f["cluster"] or f["pub"] or f["priv"] or f["start"] or f["end"]
+    if f["file"] + f["stdin"] + atlas != 1:
+        return False
+    if atlas and not (f["project"] and f["cluster"] and f["out"] and (f["pub"] or f["env"]) and (f["priv"] or f["env"])):
+        return False
+    if f["start"] != f["end"]:
+        return False
+    if f["encrypt"] and (f["stdin"] or not f["out"]):
+        return False
+    if f["regexp"] and f["fieldNames"]:
+        return False
+    return True
+
+
+def run_cli_combo(bits, fake_url, workdir):
+    import shutil, tempfile
+    f = dict(zip(FLAG_NAMES, [b == "1" for b in bits]))
+    d = tempfile.mkdtemp(prefix="c18_", dir=workdir)
+    inp = os.path.join(d, "in.log")
+    with open(inp, "w") as fh:
+        fh.write('{"t":{"$date":"2024-01-01T00:00:00.000+00:00"},"s":"I","c":"COMMAND","id":1,"ctx":"c","msg":"Slow query","attr":{"ns":"db.c","command":{"find":"c","filter":{"a":"secretvalue"}}}}\n')
+    scratch = os.path.join(d, "w")
+    os.mkdir(scratch)
+    args = ["redact"]
+    if f["file"]:
+        args.append(inp)
+    if f["out"]:
+        args += ["-o", os.path.join(scratch, "out.log")]
+    if f["encrypt"]:
+        args += ["--encrypt"]
+    args += ["--encryptionKeyFile", os.path.join(scratch, "key.enc")]
+    if f["regexp"]:
+        args += ["--redactFieldsRegexp", "^a$"]
+    if f["fieldNames"]:
+        args += ["--redactFieldNames", "db.c"]
+    if f["project"]:
+        args += ["--atlasProjectId", "proj1"]
+    if f["cluster"]:
+        args += ["--atlasClusterName", "clu1"]
+    if f["pub"]:
+        args += ["--atlasPublicKey", "pubkey"]
+    if f["priv"]:
+        args += ["--atlasPrivateKey", "privkey"]
+    if f["start"]:
+        args += ["--atlasLogStartDate", "1700000000"]
+    if f["end"]:
+        args += ["--atlasLogEndDate", "1700003600"]
+    env = {"VERIF_ATLAS_ENDPOINT": fake_url, "TMPDIR": os.path.join(d, "w")}
+    env["ATLAS_PUBLIC_KEY"] = "pubkey" if f["env"] else ""
+    env["ATLAS_PRIVATE_KEY"] = "privkey" if f["env"] else ""
+    stdin = open(inp, "rb").read() if f["stdin"] else None
+    rc, so, se = run_cli(args, stdin=stdin, env=env, cwd=scratch, timeout=60)
+    created = sorted(os.listdir(scratch))
+    shutil.rmtree(d, ignore_errors=True)
+    return f, rc, so, se, created
+
+
+def oracle_c18(tables, seed, tier, deep):
+    import fakeatlas, tempfile, shutil
+    from concurrent.futures import ThreadPoolExecutor
+    big = tier == "thorough" or deep
+    rng = SplitMix(seed ^ 0x18)
+    combos = set()
+    if big:
+        combos = set(format(i, "013b") for i in range(8192))
+    else:
+        # every combination adjacent to a rule boundary of a well-defined job + a seeded sample
+        for i in range(8192):
+            b = format(i, "013b")
+            f = dict(zip(FLAG_NAMES, [c == "1" for c in b]))
+            if spec_well_defined(f) and rng.chance(1, 3):
+                combos.add(b)
+                for k in range(13):
+                    if rng.chance(1, 4):
+                        combos.add(b[:k] + ("0" if b[k] == "1" else "1") + b[k + 1:])
+        while len(combos) < 700:
+            combos.add(format(rng.below(8192), "013b"))
+    combos = sorted(combos)
+    payload = fakeatlas.gz(b'{"t":{"$date":"2024-01-01T00:00:00.000+00:00"},"s":"I","c":"COMMAND","id":1,"ctx":"c","msg":"Slow query","attr":{"ns":"db.c","command":{"find":"c","filter":{"a":"atlassecret"}}}}\n')
+    fake = fakeatlas.Fake(fakeatlas.Scenario(["h1.example.net:27017"], [payload]))
+    work = tempfile.mkdtemp(prefix="verif_c18_")
+    viol = []
+    dist = collections.Counter()
+    model = lean_exec([(b, ["validate", b]) for b in combos])
+    try:
+        def one(b):
+            before = len(fake.log)
+            return b, run_cli_combo(b, fake.url, work)
+        # requests are attributed per run, so runs that may talk to the fake are serialised
+        results = []
+        par = [b for b in combos if not (b[6] == "1" and b[7] == "1")]
+        ser = [b for b in combos if b[6] == "1" and b[7] == "1"]
+        with ThreadPoolExecutor(max_workers=12) as ex:
+            results += list(ex.map(one, par))
+        for b in ser:
+            n0 = len(fake.log)
+            r = one(b)
+            results.append((b, r[1] + (len(fake.log) - n0,)))
+        for b, r in results:
+            f, rc, so, se, created = r[:5]
+            nreq = r[5] if len(r) > 5 else 0
+            wd = spec_well_defined(f)
+            dist["well-defined" if wd else "ill-defined"] += 1
+            flags = [n for n in FLAG_NAMES if f[n]]
+            site = None
+            if wd and rc != 0:
+                site, detail = "rejects-well-defined", "a well-defined job ended with exit status %d: %s" % (rc, se.decode("utf-8", "replace")[-200:])
+            elif not wd:
+                if rc == 0:
+                    site, detail = "accepts-ill-defined", "an ill-defined job ran and exited 0"
+                elif created:
+                    site, detail = "side-effect:files", "rejected job created %s" % created
+                elif nreq:
+                    site, detail = "side-effect:network", "rejected job sent %d request(s)" % nreq
+                elif not se.strip():
+                    site, detail = "silent", "rejected job printed no explanation"
+            if site:
+                viol.append({"site": "cli:" + site + ":" + "+".join(flags), "detail": detail, "bits": b, "flags": flags, "input": b})
+            md = model.get(b, "")
+            if md and (md.startswith("accept") != (rc == 0)):
+                viol.append({"site": "model-vs-cli:" + "+".join(flags), "detail": "model says %r, the CLI exited %d" % (md, rc), "bits": b, "flags": flags, "input": b, "correspondence": True})
+    finally:
+        fake.close()
+        shutil.rmtree(work, ignore_errors=True)
+    res = result(viol, len(combos), len(combos), "real CLI started once per presence/absence combination of the 13 facts (scratch directory, fake Atlas endpoint, pipe or /dev/null on stdin); exit status, files created, requests received and stderr compared with the rule table; " + ("all 8192 combinations" if big else "seeded sample + every sampled neighbour of a well-defined job"),
+                 dist, [{"bits": combos[0], "flags": [n for n, c in zip(FLAG_NAMES, combos[0]) if c == "1"]}])
+    if big:
+        res["stats"]["exhaustive"] = True
+    return res
+
+
+ORACLES["C18"] = oracle_c18
